@@ -430,4 +430,3 @@ package route
 //@ contract route.getDatasetFromRequest props C19
 //@   requires req != nil
 //@   ensures[a-dataset-written-with-PathEscape-is-read-back-unchanged] forall d string :: d != "" && mux.Vars(req)["datasetName"] == url.PathEscape(d) && url.PathEscape(d) != "" ==> result0 == d && result1 == nil
-
